@@ -364,6 +364,10 @@ def check_string(acc, s, report_timeouts=True):
                     w = {"formula": s, "config": cfg[0], "exception": f"SyntaxError: {e}"[:200], "code": REPRO.format(psrc=parser_src(cfg), s=s, allowed=["returned", "parsing-error"])}
                     w.update(info)
                     acc.fail(clause, cls, w, detail)
+            elif isinstance(e, (RecursionError, MemoryError)):
+                # interpreter resource limits on very long inputs (e.g. 400 chained calls inside one
+                # Python fragment): recorded in the outcome histogram, not judged
+                oc = f"resource-limit:{type(e).__name__}@{site_of(e)}"
             else:
                 name = type(e).__name__
                 site = site_of(e)
@@ -516,5 +520,6 @@ def run_bounded(ctx):
         "A-C14-syntaxerror: a plain SyntaxError is accepted iff some Python-kind token, as the library's tokenizer delimits it, is not a valid "
         "Python expression (backtick-quoted names counted as identifiers); when the fragment as written is valid once string literals are "
         "respected it is reported under its own class",
+        "A-C14-resource: RecursionError / MemoryError (CPython limits inside ast.parse/ast.unparse on very long fragments) are counted, not judged",
         f"A-C14-timeout: 'terminates' is observed as 'finishes within {PARSE_TIMEOUT_S:.0f} s, re-tried with 60 s'",
     )
